@@ -56,6 +56,8 @@ class ModelInner:
         self.log = []  # primitive mutations, in order
         self.crash_at = None  # index into the mutation log at which the process dies
         self.frozen = False
+        self.freeze_on_crash = True
+        self.actor = 0  # thread of control currently running (model SQLite connections are per thread)
         self.pre_mutation = None  # hook(kind, args) called before each primitive (C16 interference)
         self.fail_paths = {}  # path -> exception to raise when a file is *placed* there (fault injection)
         self.after_read = None  # one-shot hook(path) called after a file's content was handed to a reader (C13 race)
@@ -99,7 +101,10 @@ class ModelInner:
             finally:
                 self.pre_mutation = hook
         if self.crash_at is not None and len(self.log) == self.crash_at:
-            self.frozen = True
+            if self.freeze_on_crash:
+                self.frozen = True
+            else:  # interruption that unwinds the stack (SIGINT -> KeyboardInterrupt): handlers and finally blocks still act
+                self.crash_at = None
             raise Crash((kind, args))
         self.log.append((kind, *args))
         return True
